@@ -31,3 +31,4 @@ def run(prog, rep):
     r_codec.run_time_codec(prog, rep)
     _rk2.run_setter_verbatim(prog, rep, classes='all', floor=60)
     _rk2.run_store_verbatim(prog, rep)
+    _rk2.run_getter_verbatim(prog, rep)
